@@ -57,7 +57,7 @@ end
 def Supported (body : Stmts) : Bool := supportedL false false body
 
 /-- Go's own termination rule (return.go with the label test the right way round) -/
-def goQuirks : Quirks := { hasBreakPanicsOnUnlabelled := false }
+def goQuirks : Quirks := {}
 
 def okB : Except String Bool → Bool
   | .ok b => b
